@@ -125,3 +125,22 @@ Definition all_pairs_separated (refp : list (list Q)) (sels : list (list nat)) (
      if i <? j then existsb (fun cert => let '(a, b, n, c) := cert in
                                Nat.eqb a i && Nat.eqb b j && sep_ok refp (nth i sels []) (nth j sels []) n c) certs
      else true) (seq 0 (length sels))) (seq 0 (length sels)).
+
+(* ------------------------------------------------------------------ probes on a basis restricted to the cells tind
+   columns = -1 everywhere; columns[tind] = arange(len(tind)); cells = columns[cells]; error if some entry is < 0 *)
+Fixpoint set_nth {A : Type} (n : nat) (v : A) (l : list A) : list A :=
+  match l, n with
+  | [], _ => []
+  | _ :: t, O => v :: t
+  | a :: t, S n' => a :: set_nth n' v t
+  end.
+(* fancy-index assignment with an arange right-hand side: later positions overwrite earlier ones *)
+Definition col_table (nelems : nat) (tind : list nat) : list (option nat) :=
+  fold_left (fun tab jc => set_nth (snd jc) (Some (fst jc)) tab) (combine (seq 0 (length tind)) tind) (repeat None nelems).
+Definition restrict_cells (nelems : nat) (tind : option (list nat)) (cells : list nat) : option (list nat) :=
+  match tind with
+  | None => Some cells
+  | Some ti => all_some (map (fun c => nth c (col_table nelems ti) None) cells)
+  end.
+(* the dof table of the restricted basis: element_dofs[:, tind] *)
+Definition restrict_edofs (edofs : list (list nat)) (tind : list nat) : list (list nat) := map (fun row => gather 0 row tind) edofs.
